@@ -320,6 +320,55 @@ func checkC09(w *Worker) {
 			}
 		}
 	})
+	// many malformed lines: every one reported once, in file order; the exit status of the real program is non-zero for
+	// every count (an exit status keeps eight bits: 256 and 512 findings must not read as success)
+	w.Explore("many-malformed-lines", ExploreOpts{ShardDepth: 2}, func(x *Exec) {
+		k := []int{1, 3, 255, 256, 257, 512, 1024}[x.Choose(7, "input:malformed-lines")]
+		silent := x.Choose(2, "config:silent")
+		var sb strings.Builder
+		var raws []string
+		var nums []int
+		line := 0
+		emit := func(s string) { sb.WriteString(s + "\n"); line++ }
+		for i := 0; i < k; i++ {
+			if i%3 == 0 {
+				emit(fmt.Sprintf("rec%d:", i))
+				emit("  good: 1")
+			}
+			if i%5 == 0 {
+				emit("# comment")
+				emit("")
+			}
+			b := c09Bad[i%len(c09Bad)]
+			emit(b.Text)
+			raws = append(raws, b.Text)
+			nums = append(nums, line)
+		}
+		args := []string{"lint", "file.yaml"}
+		if silent == 1 {
+			args = []string{"lint", "--silent", "file.yaml"}
+		}
+		c := appCase{Args: args, Files: map[string]string{"file.yaml": sb.String()}}
+		r := runApp(c)
+		x.Obs(fmt.Sprint(r.Failed, len(r.Stdout)))
+		x.Case(fmt.Sprint("many", k, silent), true)
+		if r.Panic != "" || !r.Failed {
+			x.Violate("C09|lint|many-malformed-lines|no-failure", fmt.Sprintf("`%s` on a file with %d malformed lines: failed=%v %s", strings.Join(args, " "), k, r.Failed, firstLine(r.Panic)), nil)
+			return
+		}
+		if silent == 0 {
+			got := splitLines(r.Stdout)
+			ok := len(got) == k
+			for i := 0; ok && i < k; i++ {
+				ok = quotes(got[i], raws[i], nums[i])
+			}
+			if !ok {
+				x.Violate("C09|lint|many-malformed-lines|wrong-messages", fmt.Sprintf("lint on a file with %d malformed lines prints %d lines:\n%s", k, len(got), tailStr(r.Stdout, 800)), nil)
+				return
+			}
+		}
+		x.w.binMustAgree(x, c, r, "C09|lint|many-malformed-lines")
+	})
 	if w.Tier == "quick" {
 		// quick: only the layout deviations that move line numbers or change line ends (CRLF, gap lines, final newline)
 		w.Explore("k<=1-layout-dev1", ExploreOpts{ShardDepth: 6, Budgets: map[string]int{"layout": 1, "layout:indent": 0, "layout:quote": 0, "layout:sep": 0, "layout:trail": 0}}, body(0, 1))
